@@ -6,6 +6,7 @@ keep the same contracts armed while real fits run, so the derivatives the optimi
 errors the catalogue actually gets are checked at the parameter values the fit visits.
 """
 import itertools
+import os
 import sys
 
 import numpy as np
@@ -349,19 +350,26 @@ def post_result_to_components(model, sources, finder=None):
                 k = 3600.0 * 2.0 * np.sqrt(2.0 * np.log(2.0))
                 e_x = k * skylen(sx, sx + esx, theta)
                 e_y = k * skylen(sy, sy + esy, theta + 90.0)
-                l_x = k * skylen(0.0, sx, theta)
-                l_y = k * skylen(0.0, sy, theta + 90.0)
+                # the sky length of the sx axis' FWHM vector drawn from the centre in one piece (scaling the length of the
+                # sigma vector instead differs at the 1e-6 level, the curvature of the projection over a couple of pixels)
+                cc = 2.0 * np.sqrt(2.0 * np.log(2.0))
+                l_x = 3600.0 * skylen(0.0, cc * sx, theta)
                 # which pixel axis became `a`: the reported a (or b) IS the sky length of the sx axis (the other one is the
                 # sy axis' length reduced by the non-orthogonality correction, so it cannot be identified by size alone)
-                if abs(src.a - l_x) <= 1e-6 * l_x:
+                m_a, m_b = abs(src.a - l_x) <= 1e-7 * l_x, abs(src.b - l_x) <= 1e-7 * l_x
+                if m_a and m_b:
+                    # a (nearly) circular component: both reported axes equal the sx axis' length, so which one the code
+                    # took as `a` cannot be told from the outside (thorough C01/C03, sx == sy to 2e-7) - not judged
+                    a_from_x = None
+                    o.count('component_errors_circular_not_judged')
+                elif m_a:
                     a_from_x = True
-                elif abs(src.b - l_x) <= 1e-6 * l_x:
+                elif m_b:
                     a_from_x = False
                 else:
                     a_from_x = None
-                if a_from_x is None:
                     o.count('component_errors_axis_not_identified')
-                else:
+                if a_from_x is not None:
                     (emaj, emin) = (e_x, e_y) if a_from_x else (e_y, e_x)
                     o.count('component_shape_errors_judged')
                     da = abs(src.err_a - emaj) / emaj
